@@ -553,6 +553,26 @@ def spec_cmap2(d, c):
     return sub(k, low)
 
 
+def spec_cmap6(d, c):
+    """format 6 (trimmed table mapping): firstCode, entryCount, glyphIdArray"""
+    first, n = int(be_uint(d[6:8])), int(be_uint(d[8:10]))
+    if c < first or c >= first + n:
+        return 0
+    p = 10 + 2 * (c - first)
+    return be_uint(d[p:p + 2])
+
+
+def spec_cmap13(d, c):
+    """format 13 (many-to-one range mappings): every code of a group maps to the group's glyph id"""
+    ngroups = int(be_uint(d[12:16]))
+    for i in range(ngroups):
+        o = 16 + 12 * i
+        s, e = int(be_uint(d[o:o + 4])), int(be_uint(d[o + 4:o + 8]))
+        if s <= c <= e:
+            return be_uint(d[o + 8:o + 12])
+    return 0
+
+
 def spec_cmap12(d, c):
     ngroups = int(be_uint(d[12:16]))
     for i in range(ngroups):
@@ -563,11 +583,11 @@ def spec_cmap12(d, c):
     return 0
 
 
-@kernel('C02', funcs=['ttLib/tables/_c_m_a_p.py:cmap_format_2.compile', 'ttLib/tables/_c_m_a_p.py:cmap_format_2.setIDDelta', 'ttLib/tables/_c_m_a_p.py:cmap_format_2.decompile',
+@kernel('C02', funcs=['ttLib/tables/_c_m_a_p.py:cmap_format_6.compile', 'ttLib/tables/_c_m_a_p.py:cmap_format_6.decompile', 'ttLib/tables/_c_m_a_p.py:cmap_format_13._IsInSameRun', 'ttLib/tables/_c_m_a_p.py:cmap_format_2.compile', 'ttLib/tables/_c_m_a_p.py:cmap_format_2.setIDDelta', 'ttLib/tables/_c_m_a_p.py:cmap_format_2.decompile',
                       'ttLib/tables/_c_m_a_p.py:cmap_format_4.compile', 'ttLib/tables/_c_m_a_p.py:splitRange', 'ttLib/tables/_c_m_a_p.py:cmap_format_4.decompile',
                       'ttLib/tables/_c_m_a_p.py:cmap_format_12_or_13.compile', 'ttLib/tables/_c_m_a_p.py:cmap_format_12_or_13.decompile', 'ttLib/tables/_c_m_a_p.py:_make_map',
                       'ttLib/ttFont.py:getSearchRange'],
-        bounds='cmap subtables format 4, 12 and 2: concrete code-point sets from 11 shapes (runs of 5/12/20, two runs, scattered, next to 0xFFFF, beyond the BMP, a run of 36 with three in-step stretches (a+i, b+i, c+i) and two out-of-step ones; for format 2 '
+        bounds='cmap subtables format 4, 12, 2, 6 and 13 (13 with the glyph ids of each run made EQUAL - a many-to-one map): concrete code-point sets from 11 shapes (runs of 5/12/20, two runs, scattered, next to 0xFFFF, beyond the BMP, a run of 36 with three in-step stretches (a+i, b+i, c+i) and two out-of-step ones; for format 2 '
                'one-byte codes with a hole, two lead bytes, a hole inside a two-byte range) x '
                'SYMBOLIC glyph ids a + i (i < k) and b + (i - k) (i >= k), a, b in [1, 60000] (b either continues the a-run or is clear of it), k from the parameter: the character -> glyph '
                'mapping read back by a reader written from the spec (segment search, idDelta mod 65536, idRangeOffset indexing; sequential groups; format 2 subHeaderKeys, '
@@ -577,10 +597,11 @@ def spec_cmap12(d, c):
         shims=['struct', 'array'],
         quick=[dict(fmt=4, shape='run12', k=k) for k in (0, 3, 6)] + [dict(fmt=4, shape='run5', k=2), dict(fmt=4, shape='two-runs', k=1), dict(fmt=4, shape='two-runs', k=5), dict(fmt=4, shape='scattered', k=2), dict(fmt=4, shape='top', k=1),
                                                                      dict(fmt=12, shape='astral', k=3), dict(fmt=12, shape='run5', k=2),
-                                                                     dict(fmt=2, shape='dbcs', k=2), dict(fmt=2, shape='dbcs-only', k=1), dict(fmt=2, shape='sbcs', k=1), dict(fmt=4, shape='three-in-step', k=0)],
+                                                                     dict(fmt=2, shape='dbcs', k=2), dict(fmt=2, shape='dbcs-only', k=1), dict(fmt=2, shape='sbcs', k=1), dict(fmt=4, shape='three-in-step', k=0), dict(fmt=6, shape='two-runs', k=1), dict(fmt=13, shape='run5', k=2)],
         thorough=[dict(fmt=4, shape=s, k=k) for s in ('run12', 'run5', 'two-runs', 'scattered', 'top', 'run20') for k in (0, 1, 2, 3, 5, 6, 9, 11) if k < len(CMAP_SHAPES[s])]
         + [dict(fmt=12, shape=s, k=k) for s in ('astral', 'run5', 'two-runs', 'scattered') for k in (0, 1, 2, 3)]
-        + [dict(fmt=2, shape=s, k=k) for s in ('dbcs', 'dbcs-only', 'sbcs') for k in (0, 1, 2, 3)] + [dict(fmt=4, shape='three-in-step', k=0), dict(fmt=12, shape='three-in-step', k=0)],
+        + [dict(fmt=2, shape=s, k=k) for s in ('dbcs', 'dbcs-only', 'sbcs') for k in (0, 1, 2, 3)] + [dict(fmt=4, shape='three-in-step', k=0), dict(fmt=12, shape='three-in-step', k=0)]
+        + [dict(fmt=6, shape=s, k=k) for s in ('run5', 'two-runs', 'scattered') for k in (0, 1, 3)] + [dict(fmt=13, shape=s, k=k) for s in ('run5', 'two-runs', 'astral') for k in (0, 2, 3)],
         conc_cap=80, max_paths=100000)
 def cmap_roundtrip(fmt, shape, k):
     codes = CMAP_SHAPES[shape]
@@ -588,23 +609,28 @@ def cmap_roundtrip(fmt, shape, k):
     b = V.int('b', 1, 60000)
     assume(disj([eq(b, a + k), le(a + 40, b), le(b + 40, a)]))      # b continues the a-run exactly, or lies clear of it
     gids = [a + i if i < k else b + (i - k) for i in range(len(codes))]
+    if fmt == 13:
+        gids = [a if i < k else b for i in range(len(codes))]          # many-to-one: one glyph per run
     if shape == 'three-in-step':
         c = V.int('c', 1, 60000)
         assume(conj([disj([le(a + 60, c), le(c + 60, a)]), disj([le(b + 60, c), le(c + 60, b)]), disj([le(a + 60, b), le(b + 60, a)])]))
         gids = [a + i for i in range(10)] + [a + 22, a + 21, a + 20] + [b + i for i in range(10)] + [b + 22, b + 21, b + 20] + [c + i for i in range(10)]
     names = ['n%d' % i for i in range(len(codes))]
+    if fmt == 13:
+        names = ['na' if i < k else 'nb' for i in range(len(codes))]     # many codes, one glyph
+        assume(neg(eq(a, b)))
     font = _CmapFont(dict(zip(names, gids)))
     st = CM.CmapSubtable.newSubtable(fmt)
-    st.platformID, st.platEncID, st.language = 3, (10 if fmt == 12 else 1), 0
+    st.platformID, st.platEncID, st.language = 3, (10 if fmt in (12, 13) else 1), 0
     st.cmap = dict(zip(codes, names))
     data = st.compile(font)
     observe('length', len(tobytes(data)))
     d = blist(data)
-    spec = {4: spec_cmap4, 12: spec_cmap12, 2: spec_cmap2}[fmt]
-    ob('spec:length-field', eq(be_uint(d[2:4]) if fmt != 12 else be_uint(d[4:8]), len(d)))
+    spec = {4: spec_cmap4, 12: spec_cmap12, 2: spec_cmap2, 6: spec_cmap6, 13: spec_cmap13}[fmt]
+    ob('spec:length-field', eq(be_uint(d[2:4]) if fmt not in (12, 13) else be_uint(d[4:8]), len(d)))
     ob('spec:mapped-codes', conj([eq(spec(d, c), g) for c, g in zip(codes, gids)]))
     near = sorted({c + dd for c in codes for dd in (-1, 1)} - set(codes))
-    near = [c for c in near if 0 <= c <= (0xFFFE if fmt != 12 else 0x10FFFF)]
+    near = [c for c in near if 0 <= c <= (0xFFFE if fmt not in (12, 13) else 0x10FFFF)]
     ob('spec:unmapped-neighbours-are-missing', conj([eq(spec(d, c), 0) for c in near]))
     if fmt == 4:
         n = int(be_uint(d[6:8])) // 2
